@@ -28,10 +28,10 @@ RACE_PROPS = {"C04", "C14", "C19", "C16", "C11"}
 
 # quick-tier number of runs per property (plain binary); thorough is time based
 QUICK_RUNS = {
-    "default": 2400,
-    "C08": 1200, "C15": 1200, "C13": 2400, "C09": 1600, "C10": 1600, "C19": 800,
+    "default": 16000,
+    "C04": 12000, "C05": 12000, "C06": 10000, "C08": 8000, "C15": 12000, "C13": 16000, "C09": 12000, "C10": 12000, "C16": 12000, "C19": 4000,
 }
-QUICK_RACE_RUNS = {"default": 600, "C19": 600}
+QUICK_RACE_RUNS = {"default": 3000, "C19": 2000}
 QUICK_DEADLINE_S = 75
 
 LEVELS = {"C20": "exploration"}
@@ -151,7 +151,9 @@ def build(need_race, log):
         # keep the cache small
         ents = sorted((os.path.getmtime(os.path.join(cache_root, d)), d) for d in os.listdir(cache_root)
                       if os.path.isdir(os.path.join(cache_root, d)))
-        for _, d in ents[:-4]:
+        # evict only what has not been used for a long time (a running check may still need its binaries)
+        stale = [(m, d) for m, d in ents[:-8] if time.time() - m > 4 * 3600] + [(m, d) for m, d in ents[:-60]]
+        for _, d in stale:
             shutil.rmtree(os.path.join(cache_root, d), ignore_errors=True)
             try:
                 os.unlink(os.path.join(cache_root, ".lock-" + d))
@@ -271,6 +273,7 @@ def main():
     os.makedirs(os.path.join(VERIF, "replays"), exist_ok=True)
     os.makedirs(os.path.join(VERIF, "evidence"), exist_ok=True)
     cdir = build(need_race, log)
+    os.utime(cdir)
     plain = os.path.join(cdir, "simcheck.test")
     outdir = tempfile.mkdtemp(prefix="simkit-run-", dir=scratch_root())
     try:
@@ -496,4 +499,12 @@ def evidence(prop, tier, seed, summaries, det, log, cdir, wall, nviol, known_lin
 
 
 if __name__ == "__main__":
-    main()
+    try:
+        main()
+    except SystemExit:
+        raise
+    except BaseException as ex:  # noqa
+        import traceback
+        traceback.print_exc()
+        print("INFRA driver crashed: %r" % (ex,), flush=True)
+        sys.exit(2)
